@@ -15,6 +15,8 @@ EXTENDS Interp, Json, IOUtils
 
 Rec == ndJsonDeserialize(IOEnv.TRACE)
 
+CONSTANT CrashOnly       \* TRUE: accept every run in which the implementation did not crash (C09); the machine is still stepped
+
 VARIABLES l, m            \* trace line being validated, machine state
 vars == <<l, m>>
 
@@ -42,7 +44,7 @@ SnapMatches(me, oe) ==
 
 (* the machine's new snapshot, if this step emitted one, equals the recorded snapshot at that position *)
 EventOK(r, old, new) ==
-  IF Len(new.evs) = Len(old.evs) THEN TRUE
+  IF CrashOnly \/ Len(new.evs) = Len(old.evs) THEN TRUE
   ELSE IF Len(new.evs) > Len(r.evs) THEN FALSE
   ELSE SnapMatches(new.evs[Len(new.evs)], r.evs[Len(new.evs)])
 
@@ -51,7 +53,8 @@ MachineStep == /\ l <= Len(Rec) /\ m.st = "run"
         /\ UNCHANGED l
 
 EndOK(r, fin) ==
-  IF fin.st \in {"unspec", "fuel"} THEN TRUE
+  IF CrashOnly THEN r.st # "panic"
+  ELSE IF fin.st \in {"unspec", "fuel"} THEN r.st # "panic"
   ELSE fin.st = r.st /\ fin.out = r.out /\ fin.rd = r.rd /\ Len(fin.evs) = Len(r.evs)
 
 Finish == /\ l <= Len(Rec) /\ m.st # "run"
